@@ -493,6 +493,8 @@ func (d *cfgDynamic) toConfig(opts *options) (cfg *Config, err error) {
 }
 
 func (d *cfgDynamic) withValue(err *error, opts *options, fn func(value)) {
+	defer opts.enterReference()()
+
 	var v value
 	if v, *err = d.getValue(opts); *err == nil {
 		fn(v)
